@@ -47,7 +47,7 @@ THEOREMS = ["C07_init_id", "C07_construct_id", "C07_explicit_id_kept", "C07_chec
             "C07_swhid_of_built", "C07_swhid_table", "C07_swhid_extid_none", "C07_init_id_directory",
             "C07_init_id_snapshot", "C07_init_id_release", "C07_release_no_target", "C07_init_id_revision",
             "C07_init_id_origin", "C07_needed_raw_passes_example", "C07_unneeded_raw_fails_example",
-            "C07_satisfiable"]
+            "C07_satisfiable", "C07_init_id_extid", "C07_init_id_emd"]
 RULE = ("per kind (origin, snapshot, release, revision, directory, raw extrinsic metadata, external id) objects from "
         "the C02-C05 generators and own generators (non-ASCII URLs, all context combinations, payloads); per object "
         "three cases: ids (no id, right id, all 160 single-bit flips, truncated, extended, random, zero id), raw "
